@@ -528,6 +528,13 @@ func ServerCheck(sc sim.Scenario, h *sim.History, opt ServerOptions) []Problem {
 					if dupInvolved && (p.Sig == "C01/reply-mismatch" || p.Sig == "C01/handler-ran-for-non-request" || p.Sig == "C01/handler-not-run") {
 						p.Sig = "C07/duplicate-id-handling"
 					}
+					// ... and to C06 if the member at fault is a call whose context ended
+					// while it was waiting for a slot (it must be answered with the
+					// cancellation / deadline error, without running)
+					if p.Member >= 0 && p.Member < len(r.members) && (r.members[p.Member].cancelledWaiting || r.members[p.Member].expired) &&
+						(p.Sig == "C01/reply-mismatch" || p.Sig == "C01/handler-ran-for-non-request") {
+						p.Sig = "C06/waiting-call-cancellation-reply"
+					}
 					probs = append(probs, *p)
 				}
 				for i, s := range r.wireSeq {
